@@ -149,6 +149,16 @@ func genC15(cw *caseWriter, seed uint64, tier string) {
 	if tier == "thorough" {
 		n = 20000
 	}
+	genAliasHistories(cw, "C15", r, n)
+}
+
+// genAliasHistories: histories of a template and the rows it makes — creations from every kind of input, unmarshals,
+// stores, imports by key and by path, refused ones among them, clones, exports — with the template's product and every
+// live row snapshotted after EVERY step. Besides C15 (nothing but the operated root changes) the snapshots are judged
+// for what every property about declared columns relies on: a column keeps its declared format and raw type whatever
+// was stored, imported or REFUSED since (C03, C04, C10, C11, C14, C18 run a slice of these histories under their own
+// name).
+func genAliasHistories(cw *caseWriter, prop string, r *rng, n int) {
 	jsons := []string{`{"a":1}`, `{"a":"x"}`, `{"b":"AQI=","s":5,"new":{"q":1}}`, `{"s":"t","a":2,"p":{"zz":1,"aa":[1]}}`, `{`, `{"a":7,"a":8}`, `{"c_string":1,"c_numeric":"2","c_boolean":1}`, `{}`,
 		// another object for a key that may already hold one (in this row, or in the row it was cloned from)
 		`{"new":{"q":2,"z":[1]},"p":{"zz":5,"k":{"d":1}}}`, `{"new":{"other":true}}`,
@@ -389,7 +399,7 @@ func genC15(cw *caseWriter, seed uint64, tier string) {
 			cw.count("alias:" + strings.SplitN(op, " ", 2)[0])
 		}
 		key := descStr(cols) + " " + strings.Join(ops, " ; ")
-		cw.emit(key, len(ops) >= 3, "alias", "C15", descStr(cols), strings.Join(ops, " ; "), extStr(ext), strings.Join(obs, " ## "))
+		cw.emit(key, len(ops) >= 3, "alias", prop, descStr(cols), strings.Join(ops, " ; "), extStr(ext), strings.Join(obs, " ## "))
 	}
 }
 
